@@ -233,7 +233,7 @@ def gen_cases(sets, meta, tier):
             yield 'plateau%d' % k, si, 'I Hb0 H1 H2 S B ' + ' '.join(['Y3 N O Ra Y4 N O Ra X'] * k)
         # I. call sequences over the whole alphabet, after each prefix
         if kind == 'tiny' or (kind == 'base' and tier == 'thorough'):
-            sigma = ['I', 'Hb0', 'H1', 'H2', 'S', 'B', 'Y3', 'Y4p3', 'T3', 'N', 'O', 'o', 'R0', 'R1', 'Ra', 'RA', 'L', 'X', 'h0', 'h1', 'hp', 'K3', 'D0', 'cb', 'cd', 'ci', 'cc']
+            sigma = ['I', 'Hb0', 'H1', 'H2', 'S', 'B', 'Y3', 'Y4p3', 'T3', 'T4p0', 'N', 'O', 'o', 'R0', 'R1', 'Ra', 'RA', 'L', 'X', 'h0', 'h1', 'hp', 'K3', 'D0', 'cb', 'cd', 'ci', 'cc']
             prefixes = ['', 'I', 'I Hb0', 'I Hb0 H1', 'I Hb0 H1 H2', 'I Hb0 H1 H2 S', 'I Hb0 H1 H2 S B', 'I Hb0 H1 H2 S B Y3 N', 'I Hb0 H1 H2 h1 S B Y3 N Y4 N']
             for pi, pre in enumerate(prefixes):
                 if tier == 'quick':
@@ -248,7 +248,7 @@ def gen_cases(sets, meta, tier):
 # ---------------------------------------------------------------------- oracle
 def asan_key(text, ops=''):
     if 'heap-use-after-free' in text and 'vorbis_synthesis_blockin' in text and '_vorbis_block_ripcord' in text:
-        return 'blockin_after_rejected_packet_uaf'
+        return 'blockin_after_rejected_trackonly_uaf' if 'vorbis_synthesis_trackonly' in text.split('previously allocated')[0] else 'blockin_after_rejected_packet_uaf'
     if 'in run_ops' in text.split('allocated by')[0] and 'vorbis_' not in text.split('allocated by')[0] and ' L' in (' ' + ops):
         return 'read_without_data_then_lapout'
     m = re.search(r'ERROR: AddressSanitizer: ([\w-]+)', text)
